@@ -31,6 +31,8 @@ type stream struct {
 
 	isDetaching bool
 	isAttached  bool
+	// isBlocked is true while a processor waits for the next event in blockGet
+	isBlocked bool
 
 	first *Event
 	last  *Event
@@ -135,8 +137,10 @@ func (s *stream) blockGet() *Event {
 	}
 	for s.first == nil {
 		s.blockTime = time.Now()
+		s.isBlocked = true
 		s.streamer.makeBlocked(s)
 		s.cond.Wait()
+		s.isBlocked = false
 		s.streamer.resetBlocked(s)
 	}
 	event := s.get()
@@ -168,6 +172,12 @@ func (s *stream) tryUnblock() bool {
 	}
 
 	s.mu.Lock()
+	// the heartbeat works on a snapshot of blocked streams: the stream may have
+	// got an event and been unblocked (or even detached) since it was taken
+	if !s.isBlocked {
+		s.mu.Unlock()
+		return false
+	}
 	if time.Since(s.blockTime) < s.streamer.eventTimeout {
 		s.mu.Unlock()
 		return false
